@@ -25,6 +25,16 @@ Theorem C17_reversible : forall (runnable : file -> bool) (fails : verb -> list 
 Proof. exact reversible. Qed.
 Print Assumptions C17_reversible.
 
+(* REVERSIBLE, file by file.  When the installed agent answers --version, every system file that
+   was present is reinstated exactly by backup; install; restore -- also from a partial install
+   (a file that was absent is not constrained: C17_reversible_needs_all_files). *)
+Theorem C17_reversible_each_present_file : forall (runnable : file -> bool) (fails : verb -> list event -> bool)
+    (d : bool) (w : world) (l : loc) (f : file),
+  version_ok runnable SysExe w = true -> In l sys_locs -> fs_get l (wfs w) = Some f ->
+  fs_get l (wfs (exec runnable fails (Restore d) (exec runnable fails Install (exec runnable fails Backup w)))) = Some f.
+Proof. exact reversible_each. Qed.
+Print Assumptions C17_reversible_each_present_file.
+
 (* STOP BEFORE REPLACE.  In what ANY command appends to the ordered call/write log, every
    creation, replacement or removal of a system file is preceded by a `systemctl stop` with no
    `systemctl start` between that stop and the mutation ... *)
